@@ -47,10 +47,33 @@ def showEdges (l : List Edge) : Str := joinSep ',' (l.map showEdge)
 
 def showTrunc (t : Option Nat) : Str := match t with | none => "-1".toList | some n => showNat n
 
-/-- label|added|edges|truncated|hopNodes|hopEdges -/
-def showGraph (label : Str) (g : GState) : Str :=
+/-- `__str__` of the graph over `roots`: n(othing) / t(able) / s(vg) -/
+def shownCode (tab : Table) (roots : List Node) (g : GState) : Str :=
+  match shownAs roots.length (cfgOf false tab {} .module roots).maxNodes g with
+  | .nothing => ['n'] | .table => ['t'] | .svg => ['s']
+
+def showStyle : Style → Str | .solid => ['s'] | .dashed => ['d']
+
+/-- The order of the edges inside a hop (`sorted(...)` over idents, dict order) is not modelled, and
+    `tableRows` looks at the *first* edge: the rows are given for the two orders that matter, the
+    self-loops of the root last (`loopsFirst = false`) and first. -/
+def reorder (loopsFirst : Bool) (es : List Edge) : List Edge :=
+  let loops := es.filter fun e => e.tail == e.head
+  let others := es.filter fun e => e.tail != e.head
+  if loopsFirst then loops ++ others else others ++ loops
+
+/-- rows of the table fall-back (`node:style,...`), empty unless the graph is shown as a table -/
+def showRows (ft loopsFirst : Bool) (tab : Table) (roots : List Node) (g : GState) : Str :=
+  match shownAs roots.length (cfgOf false tab {} .module roots).maxNodes g, roots with
+  | .table, r :: _ =>
+    joinSep ',' ((tableRows ft r (reorder loopsFirst g.hopEdges)).map fun (n, s) => showNat n ++ [':'] ++ showStyle s)
+  | _, _ => []
+
+/-- label|added|edges|truncated|hopNodes|hopEdges|shown|rows|rows with the self-loops first -/
+def showGraph (ft : Bool) (tab : Table) (roots : List Node) (label : Str) (g : GState) : Str :=
   joinSep '|' [label, showNats g.added, showEdges g.edges, showTrunc g.truncated,
-    showNats g.hopNodes, showEdges g.hopEdges]
+    showNats g.hopNodes, showEdges g.hopEdges, shownCode tab roots g, showRows ft false tab roots g,
+    showRows ft true tab roots g]
 
 def className : GClass → Str
   | .module => "module".toList | .uses => "uses".toList | .usedBy => "usedby".toList
@@ -82,15 +105,21 @@ def dispatchC13 : List Str → Option (List Str)
       match args with
       | variant :: order :: ents =>
         let tab := ents.map parseEnt
-        let r := graphAll (variant == "fixed".toList || variant == "fixed+b".toList)
-          (variant == "asis+b".toList || variant == "fixed+b".toList) tab (natList order)
+        -- variant: asis|fixed, then any of +b (bindings to hidden procedures are roots), +t (table rows
+        -- decided by the first edge that is not a self-loop)
+        let vs := splitOn '+' variant
+        let ft := vs.contains ['t']
+        let r := graphAll (vs.head? == some "fixed".toList) (vs.contains ['b']) tab (natList order)
         if !r.ok then some ["fuel".toList]
         else
+          let regs := registered tab (natList order)
           some (["ok".toList,
-                 showGraph "proj:module".toList r.useGraph, showGraph "proj:type".toList r.typeGraph,
-                 showGraph "proj:call".toList r.callGraph, showGraph "proj:file".toList r.fileGraph,
+                 showGraph ft tab r.useRoots "proj:module".toList r.useGraph,
+                 showGraph ft tab (regs.filter (isKind tab .type)) "proj:type".toList r.typeGraph,
+                 showGraph ft tab r.callRoots "proj:call".toList r.callGraph,
+                 showGraph ft tab (regs.filter (isKind tab .file)) "proj:file".toList r.fileGraph,
                  showData "data1".toList r.nd1, showData "data2".toList r.nd2]
-                ++ r.perEntity.map fun (e, c, g) => showGraph (showNat e ++ [':'] ++ className c) g)
+                ++ r.perEntity.map fun (e, c, g) => showGraph ft tab [e] (showNat e ++ [':'] ++ className c) g)
       | _ => some ["bad-request".toList]
     else if cmd == "c13.callnodes".toList then
       -- c13.callnodes <calls> ent*
@@ -114,7 +143,7 @@ def dispatchC13 : List Str → Option (List Str)
           let c := classOf cls
           let cfg : Cfg := { succ := succOf tab nd c, nested := c.nested, filterAdded := c.filterAdded false,
                              maxNesting := natOf mn, maxNodes := natOf mx }
-          some ["ok".toList, showGraph cls (runGraph cfg rs)]
+          some ["ok".toList, showGraph false tab rs cls (runGraph cfg rs)]
       | _ => some ["bad-request".toList]
     else none
   | [] => none
